@@ -52,6 +52,7 @@ type c04Tok struct {
 	cubby    bool
 	secrets  []string
 	late     bool // created during the concurrent phase
+	task     string // the client task that created it (late tokens)
 }
 
 func (t *c04Tok) subtree(out *[]*c04Tok) {
@@ -275,7 +276,7 @@ func runC04(rc *RunCtx) {
 				start := s.Steps
 				resp, err := h.Do(tag, Req{Op: logical.UpdateOperation, Path: "auth/token/create", Token: o.tok.id, Data: map[string]any{"policies": []string{"p"}, "ttl": "1h"}})
 				if err == nil && resp != nil && resp.Auth != nil {
-					c := &c04Tok{name: fmt.Sprintf("late%d", i), id: resp.Auth.ClientToken, acc: resp.Auth.Accessor, parent: o.tok, late: true}
+					c := &c04Tok{name: fmt.Sprintf("late%d", i), id: resp.Auth.ClientToken, acc: resp.Auth.Accessor, parent: o.tok, late: true, task: tag}
 					_ = start
 					s.mu.Lock()
 					o.tok.children = append(o.tok.children, c)
@@ -342,7 +343,92 @@ func runC04(rc *RunCtx) {
 		isDead[d] = true
 	}
 	_ = late
+	// relistVerdict tells the documented creation/teardown race (F3) from
+	// any other way a token created during the revocation can survive. The
+	// tree walk revokes a parent only right after a listing of the parent's
+	// children that shows nothing it has not already visited; so a surviving
+	// late child was either invisible to that final listing (its parent
+	// index entry written afterwards) or visible to the walk while its token
+	// entry was not yet written. If, instead, the final listing of the
+	// parent's children before the parent's entry was deleted DID show
+	// children the walk had not visited before, the walk revoked a parent
+	// without looking again - not the documented race.
+	relistVerdict := func(d *c04Tok) string {
+		ops := disk.OpsCopy()
+		const pfx = "sys/token/parent/"
+		dir, putAt := "", -1
+		for i, o := range ops {
+			if o.Task == d.task && (o.Op == "put" || o.Op == "tx-put") && strings.HasPrefix(o.Key, pfx) && !o.Err {
+				dir, putAt = o.Key[:strings.LastIndex(o.Key, "/")+1], i
+				break
+			}
+		}
+		if dir == "" {
+			return "undetermined:no-parent-index-write"
+		}
+		salted := strings.TrimSuffix(strings.TrimPrefix(dir, pfx), "/")
+		delAt := -1
+		for i, o := range ops {
+			// (an attempt that an injected storage error refused counts: it
+			// marks the point where the walk had decided to remove the parent)
+			if (o.Op == "del" || o.Op == "tx-del") && o.Key == "sys/token/id/"+salted {
+				delAt = i
+			}
+		}
+		if delAt < 0 {
+			return "undetermined:parent-entry-not-deleted"
+		}
+		isList := func(o DiskOp) bool {
+			switch o.Op {
+			case "list", "page", "tx-list", "tx-page":
+				return !o.Err && o.N >= 0 && (o.Key == dir || strings.HasPrefix(o.Key, dir+"|"))
+			}
+			return false
+		}
+		// the listing that preceded the deletion, by the walk that deleted
+		final := -1
+		for i := 0; i < delAt; i++ {
+			if isList(ops[i]) && ops[i].Task != d.task && (ops[delAt].Task == "" || ops[i].Task == ops[delAt].Task) {
+				final = i
+			}
+		}
+		if final < 0 {
+			return "undetermined:parent-children-never-listed"
+		}
+		seen := map[string]bool{}
+		for i := 0; i < final; i++ {
+			if isList(ops[i]) && ops[i].Task == ops[final].Task {
+				for _, e := range ops[i].Res {
+					seen[e] = true
+				}
+			}
+		}
+		fresh := 0
+		for _, e := range ops[final].Res {
+			if !seen[e] {
+				fresh++
+			}
+		}
+		switch {
+		case fresh > 0:
+			return "parent-revoked-although-final-listing-showed-unvisited-children"
+		case putAt > final:
+			return "child-index-written-after-final-listing"
+		default:
+			return "child-listed-before-its-entry-was-written"
+		}
+	}
 	sigFor := func(d *c04Tok) map[string]any {
+		if d.late {
+			return map[string]any{
+				"method":                               method,
+				"token_created_during_revocation":      true,
+				"revocation_retried_after_storage_err": retried,
+				"multi_use_token":                      d.numUses > 0,
+				"is_target":                            d == x,
+				"tree_walk":                            relistVerdict(d),
+			}
+		}
 		return map[string]any{
 			"method":                               method,
 			"token_created_during_revocation":      d.late,
@@ -374,6 +460,11 @@ func runC04(rc *RunCtx) {
 		}
 		return true
 	}
+	// storage operations up to here belong to the revocations and the
+	// concurrent requests; the probes below can themselves trigger clean-up
+	// (lookup of a half-removed token revokes it), which must not be
+	// mistaken for work of the acknowledged revocation
+	opsBeforeProbes := len(disk.OpsCopy())
 	if !probeDead(h, "after-drain") {
 		return
 	}
@@ -467,16 +558,27 @@ func runC04(rc *RunCtx) {
 	sort.Strings(unrevoked)
 	if len(unrevoked) > 0 {
 		// was the lease registered after the revocation listed the token's leases?
+		ops := disk.OpsCopy()[:opsBeforeProbes]
 		for _, k := range disk.RawKeys("sys/expire/token/") {
 			dir := k[:strings.LastIndex(k, "/")+1]
-			put := disk.FirstPutStep(k)
-			before, after := false, false
-			for _, st := range disk.OpSteps("list", dir) {
-				if st < put {
-					before = true
+			put := -1
+			for i, o := range ops {
+				if (o.Op == "put" || o.Op == "tx-put") && o.Key == k && !o.Err {
+					put = i
+					break
 				}
-				if st > put {
-					after = true
+			}
+			if put < 0 {
+				continue
+			}
+			before, after := false, false
+			for i, o := range ops {
+				if o.Op == "list" && o.Key == dir {
+					if i < put {
+						before = true
+					} else {
+						after = true
+					}
 				}
 			}
 			if before && !after {
